@@ -6,12 +6,8 @@ From SB Require Import Base.Prelude Gen.Generated Model.Light Spec.LightSpec Pro
 Import ListNotations.
 Local Open Scope Z_scope.
 
-Definition rgbq_eq (a b : rgbq) : Prop := (qr a == qr b)%Q /\ (qg a == qg b)%Q /\ (qb a == qb b)%Q.
-
-(** what a seek reports vs the declarative state at [t] *)
-Definition obs_match (p : player) (s : mstate) (t : Z) : Prop :=
-  rgbq_eq (obs_color p) (spec_color s t) /\ obs_pyro p = spec_pyro s /\
-  obs_ended p = spec_ended s /\ obs_next p = spec_next s t.
+(** [rgbq_eq], [obs_match] (what a seek reports vs the declarative state at
+    [t]), [extra] and [run_seeks] are defined in Proofs/Light_Proofs.v. *)
 
 (** C02.  The polling interpreter (transcription of CommandExecutor::step and
     BytecodePlayer::seek: clock-reset flag, stale fields after rewind,
@@ -58,30 +54,6 @@ Theorem decode_unknown_stops : forall prog a op,
   wf_bytes prog = true -> byte_at prog a = op -> (op = 15 \/ 22 <= op) -> fst (decode prog a) = IEnd.
 Proof. exact Light_Proofs.decode_unknown_stops. Qed.
 Print Assumptions decode_unknown_stops.
-
-(** C09.  After any history of seeks (backwards, repeated, far ahead) a seek to
-    [t] reports the declarative state at [t], possibly advanced by further
-    instructions scheduled at that very instant when [t] repeats the previous
-    query. *)
-Inductive extra (prog : list Z) (t : Z) : nat -> mstate -> mstate -> Prop :=
-| extra0 : forall s, extra prog t 0 s s
-| extraS : forall k s s', m_ended s = false -> m_wake s = t ->
-    extra prog t k (exec1 prog s) s' -> extra prog t (S k) s s'.
-
-Fixpoint run_seeks (fuel : nat) (prog : list Z) (p : player) (ts : list Z) : res player :=
-  match ts with
-  | [] => Ok p
-  | t :: rest => p' <- light_seek fuel prog p t ;; run_seeks fuel prog p' rest
-  end.
-
-Theorem seek_history_independent : forall prog ts t fuel p p',
-  wf_bytes prog = true -> Forall (fun x => 0 <= x) ts -> 0 <= t ->
-  run_seeks fuel prog (player_fresh prog) ts = Ok p ->
-  light_seek fuel prog p t = Ok p' ->
-  exists fuel' s k s', state_at fuel' prog t = Some s /\ extra prog t k s s' /\
-    (k <> 0%nat -> cur_ts p = t) /\ obs_match p' s' t.
-Proof. exact Light_Proofs.seek_history_independent. Qed.
-Print Assumptions seek_history_independent.
 
 (** Non-vacuity: a program with a nested loop, a fade and a jump. *)
 Example light_example :
